@@ -219,6 +219,20 @@ def hooks(log):
         o_dec(self)
         log["penalty"].append(("dec", pre, float(self._penalty)))
 
+    o_trs = F.TrustRegion.get_trust_region_step
+
+    def trs(self, options):
+        pts = merits(self)
+        b = int(self.best_index)
+        eps = np.finfo(float).eps
+        npt = self.models.npt
+        slack = 10.0 * eps * max(self.models.n, npt) * max(abs(pts[b][0]), 1.0) * npt
+        worst = min((m for m, _ in pts if m == m), default=pts[b][0])
+        log["centres"] = log.get("centres", 0) + 1
+        if pts[b][0] == pts[b][0] and pts[b][0] > worst + slack:
+            log.setdefault("centre_fail", []).append((log["centres"], float(pts[b][0]), float(worst), float(self._penalty)))
+        return o_trs(self, options)
+    patch(F.TrustRegion, "get_trust_region_step", trs)
     patch(F.TrustRegion, "update_radius", upd)
     patch(F.TrustRegion, "enhance_resolution", enh)
     patch(F.TrustRegion, "set_best_index", sbi)
@@ -238,7 +252,8 @@ def real_run(desc):
     pb = genruns.build(desc)
     log = {"ops": [], "scans": [], "removes": [], "penalty": [], "rhoend": None}
     consts = dict(pb["constants"])
-    with warnings.catch_warnings():
+    import io
+    with warnings.catch_warnings(), contextlib.redirect_stdout(io.StringIO()):
         warnings.simplefilter("ignore")
         with hooks(log):
             try:
@@ -294,7 +309,7 @@ def run(chk, rng, replay=None):
             specfail.append(("component", c, f))
         regimes["enh"] += sum(1 for o in c["ops"] if o[0] == "enh")
     # (ii) real runs
-    n_ops = n_scans = n_removes = n_pen = 0
+    n_ops = n_scans = n_removes = n_pen = n_centres = 0
     reqs, keys = [], []
     for d in descs:
         try:
@@ -320,6 +335,9 @@ def run(chk, rng, replay=None):
             keys.append(("remove", d, kmax, best, sg))
             if kmax == best and any(a * b > 0 for i, (a, b) in enumerate(zip(w, sg)) if i != best):
                 specfail.append(("run", d, (n_removes, "the best point was chosen for replacement")))
+        n_centres += log.get("centres", 0)
+        for it, mb, mw, pen in log.get("centre_fail", [])[:1]:
+            specfail.append(("run", d, (it, f"the centre is not the interpolation point of least merit at the start of iteration {it}: merit {mb!r} vs {mw!r} (penalty {pen!r})")))
         for kind, pre, post in log["penalty"]:
             n_pen += 1
             if not (post >= 0.0 and np.isfinite(post)):
@@ -346,7 +364,7 @@ def run(chk, rng, replay=None):
         "rule": "(i) radius/resolution rules on a real TrustRegion object: constants from _set_default_constants on the boundary lattice of their domains, radius_final over 30 decades incl. 0 and equal to radius_init, ratios incl. negative/huge/exactly at low_ratio and high_ratio, step norms 0..1e3 radii, 1..24 operations per case, compared bit-for-bit with Model/Radius.lean on Float; (ii) real minimize runs with every radius/resolution change, set_best_index scan and get_index_to_remove choice logged and replayed. Non-trivial: more than one operation / a real run; distinct by content.",
         "samples": [comp[-1]] if comp else [descs[-1]],
         "component_cases": len(comp), "real_runs": len(descs), "radius_ops_in_runs": n_ops, "best_index_scans": n_scans,
-        "index_to_remove_calls": n_removes, "penalty_updates": n_pen, "correspondence_mismatches": len(mism),
+        "index_to_remove_calls": n_removes, "penalty_updates": n_pen, "centre_checks_at_iteration_start": n_centres, "correspondence_mismatches": len(mism),
     })
     chk.assumptions += ["theorems are over exact rationals; binary64 satisfies the same order facts because rounding is monotone (fl(c*x) >= x for c >= 1) - checked on the implementation's own values in every case above",
                         "finiteness of the penalty is only monitored (it is a quotient of model values)"]
